@@ -17,6 +17,8 @@ thread_local! {
     static LOG: RefCell<Vec<Value>> = const { RefCell::new(Vec::new()) };
     static NEXT_MSG: RefCell<u16> = const { RefCell::new(1) };
     static TICK: RefCell<Duration> = const { RefCell::new(Duration::from_millis(1)) };
+    /// upper bound (exclusive) of the sub-tick offset a jittering channel may add to an arrival time
+    static JITTER_NS: RefCell<u128> = const { RefCell::new(0) };
     static BYTES: RefCell<Vec<usize>> = const { RefCell::new(Vec::new()) };
     /// live-object accounting for C20: +1 on creation, -1 on drop, per class
     static LIVE: RefCell<[i64; 3]> = const { RefCell::new([0; 3]) };   // modules, elements, message bodies
@@ -29,7 +31,9 @@ fn tick() -> Duration {
 fn now_ticks() -> i64 {
     let n = SimTime::now();
     let t = tick().as_nanos();
-    if n.as_nanos() % t == 0 { (n.as_nanos() / t) as i64 } else { -1 }
+    let slack = JITTER_NS.with(|j| *j.borrow());
+    // jitter is drawn from [0, jitter): with jitter << tick an arrival stays inside its tick
+    if n.as_nanos() % t == 0 || n.as_nanos() % t < slack { (n.as_nanos() / t) as i64 } else { -1 }
 }
 fn log(v: Value) {
     LOG.with(|l| l.borrow_mut().push(v));
@@ -235,7 +239,8 @@ fn channel(cfg: &NetCfg, id: &str) -> Option<des::net::channel::ChannelRef> {
         (_, l) if l < 0 => ChannelDropBehaviour::Queue(None),
         (_, l) => ChannelDropBehaviour::Queue(Some(l as usize)),
     };
-    Some(Channel::new(ChannelMetrics::new(c["bitrate"].as_u64().unwrap() as usize, tick * c["lat"].as_u64().unwrap() as u32, Duration::ZERO, policy)))
+    let jitter = Duration::from_nanos(c["jitter_ns"].as_u64().unwrap_or(0));
+    Some(Channel::new(ChannelMetrics::new(c["bitrate"].as_u64().unwrap() as usize, tick * c["lat"].as_u64().unwrap() as u32, jitter, policy)))
 }
 
 pub struct Outcome {
@@ -255,6 +260,7 @@ pub fn run_scenario(cfg: &NetCfg, scripts: &Value, seed: u64) -> Outcome {
     NEXT_MSG.with(|n| *n.borrow_mut() = 1);
     TICK.with(|t| *t.borrow_mut() = Duration::from_nanos(cfg.tick_ns));
     BYTES.with(|b| *b.borrow_mut() = cfg.bytes.clone());
+    JITTER_NS.with(|j| *j.borrow_mut() = cfg.chans["1"]["jitter_ns"].as_u64().unwrap_or(0) as u128 * 4);
     LIVE.with(|l| *l.borrow_mut() = [0; 3]);
     DROPPED_TWICE.with(|d| *d.borrow_mut() = 0);
     let r = catch_unwind(AssertUnwindSafe(|| {
@@ -288,7 +294,7 @@ pub fn run_scenario(cfg: &NetCfg, scripts: &Value, seed: u64) -> Outcome {
             o2.connect(ct.clone(), None);
             ct.connect(i2, channel(cfg, "2"));
         }
-        let rt = Builder::seeded(seed).quiet().max_time(SimTime::from_duration(Duration::from_nanos(cfg.tick_ns) * cfg.max_t as u32)).build(sim.freeze());
+        let rt = Builder::seeded(seed).quiet().max_time(SimTime::from_duration(Duration::from_nanos(cfg.tick_ns) * cfg.max_t as u32 + Duration::from_nanos(cfg.tick_ns / 2))).build(sim.freeze());
         rt.run()
     }));
     let mut out = Outcome { log: Vec::new(), err: BTreeSet::new(), tend: -1, result_ok: false, live_after_drop: [0; 3], dropped_twice: 0, panicked: false };
@@ -384,7 +390,23 @@ pub fn replay(args: &[String]) {
             fail("building or running the simulation panicked (panic escaped the simulator)", json!({}));
             return;
         }
-        if let Some(i) = first_diff(exp_log, &out.log) {
+        if cfgv["per_module"] == true {
+            // jittering channels shift arrivals by a sub-tick offset: the order of observations of *different*
+            // modules inside one tick is not determined, each module's own sequence is
+            let mut bad = None;
+            for m in &cfg.mods {
+                let e: Vec<Value> = exp_log.iter().filter(|x| x["m"] == m.as_str()).cloned().collect();
+                let g: Vec<Value> = out.log.iter().filter(|x| x["m"] == m.as_str()).cloned().collect();
+                if let Some(i) = first_diff(&e, &g) {
+                    bad = Some((m.clone(), i, e.get(i).cloned(), g.get(i).cloned()));
+                    break;
+                }
+            }
+            if let Some((m, i, e, g)) = bad {
+                fail(&format!("observation log of module {m} diverges"), json!({"index": i, "expected": e, "got": g, "got_log": out.log}));
+                return;
+            }
+        } else if let Some(i) = first_diff(exp_log, &out.log) {
             let what = exp_log.get(i).or(out.log.get(i)).map(|e| e["o"].as_str().unwrap_or("?").to_string()).unwrap_or_default();
             fail(&format!("observation log diverges at a '{what}' entry"), json!({"index": i, "expected": exp_log.get(i), "got": out.log.get(i), "got_log": out.log}));
             return;
